@@ -11,6 +11,7 @@ def run(chk):
     chk.assumptions = ['exactness of a particular Gauss order for the quartic integrand is the caller\'s choice']
     numk.run_c08(chk)
     pyrules.r08_python(chk)
+    pyrules.check_conn_cache(chk, 'R08.8')
     chk.explanation = ('calc_fint, fkL_num and fkG_num are lowered to polynomials over point atoms and '
                        'strain accumulators; fint is compared with sigma.d(eps)/dc, kL with the Gauss-Newton '
                        'form, and d(fint)/dc (symbolic derivative of the extracted fint) with kL+kG block by block')
